@@ -12,10 +12,11 @@ PROPERTY = "C14"
 LEVEL = "exploration"
 RULE = ("cases = (mesh, fields-per-node, list of (nodeSet, component) essential BCs); the 2x2-node mesh with one node set per "
         "node is enumerated exhaustively over all 2^8 BC subsets (dim 2) and all 2^4 (dim 1); larger meshes/orders/dims are "
-        "seeded random with overlapping, repeated, empty and full node sets. Non-trivial = BC mask neither empty nor full; "
+        "seeded random with overlapping, repeated, empty and full node sets; a history class builds six managers in one process on one "
+        "connectivity with the same (set name, component) list but redefined set contents. Non-trivial = BC mask neither empty nor full; "
         "distinct = canonical hash of the case parameters.")
 ASSUMPTIONS = ["numpy boolean-mask oracle is correct", "meshes come from the library's own structured/elevation generators or the harness's Delaunay generator"]
-REQUIRED = {"all": {"assembly_entries_checked": 1000, "roundtrip_fields": 50, "bc_empty": 1, "bc_full": 1}}
+REQUIRED = {"all": {"assembly_entries_checked": 1000, "roundtrip_fields": 50, "bc_empty": 1, "bc_full": 1, "history_steps": 24}}
 WATCHDOG_S = {"quick": 1800, "thorough": 7200}
 
 
@@ -31,6 +32,10 @@ def build_cases(tier, seed):
     for i in range(n_rand):
         s = derive_seed(seed, PROPERTY, "random", i)
         cases.append({"cls": "random", "group": "r%d" % (i % 16), "seed": s})
+    # history class: many managers in one process on the SAME connectivity with the SAME (set name, component) list but
+    # redefined node-set contents -- any state carried from one construction to the next (caches keyed on names) shows here
+    for i in range(8 if tier == "quick" else 200):
+        cases.append({"cls": "redefine_history", "group": "h%d" % (i % 16), "seed": derive_seed(seed, PROPERTY, "hist", i), "kind": "history", "cost": 3})
     # explicit corner classes
     for i, kind in enumerate(["empty", "full", "all_but_one", "repeated_sets", "dim3_full_component"] * (1 if tier == "quick" else 20)):
         s = derive_seed(seed, PROPERTY, kind, i)
@@ -173,6 +178,20 @@ def run_case(case):
         res.nontrivial = True
         return res
     rng = rng_of(case["seed"])
+    if case.get("kind") == "history":
+        order = int(rng.integers(1, 3))
+        dim = int(rng.integers(1, 4))
+        mesh0 = meshes.build({"kind": "structured", "nx": int(rng.integers(3, 5)), "ny": int(rng.integers(3, 5)), "order": order}, rng)
+        nNodes = int(mesh0.coords.shape[0])
+        ebcs = [("fixed", int(rng.integers(dim))), ("other", int(rng.integers(dim)))]
+        sizes = [int(rng.integers(1, nNodes)) for _ in range(2)]
+        for step in range(6):
+            # same names, same BC list, (mostly) same set sizes, different members
+            sets = {"fixed": onp.sort(rng.choice(nNodes, size=sizes[0], replace=False)),
+                    "other": onp.sort(rng.choice(nNodes, size=sizes[1] if step % 3 else int(rng.integers(0, nNodes)), replace=False))}
+            _check_manager(res, meshes.with_nodesets(mesh0, sets), dim, ebcs, rng)
+            res.count("history_steps")
+        return res
     order = int(rng.integers(1, 4))
     dim = int(rng.integers(1, 4))
     kind = case.get("kind", "random")
